@@ -329,13 +329,32 @@ func checkC11(c *Ctx) {
 	r.Explanation = "Decides a necessary condition of C11 only: every failure while locating and decoding the footer (Seek(-8,End), footer length, Seek to footer, thrift decode) aborts NewParquetReader with an error (EP restricted to the footer path), and the footer read dominates the first column read in the constructor, so nothing is delivered from a file whose footer could not be decoded. Whether every strict prefix makes one of those calls fail depends on what bytes thrift rejects (the reader checks no magic); that value-level fact is NOT decided here."
 	roots, _, ops := srcAnalysis(c)
 	reach := u.reach(roots.footer)
+	// call sites (in the generated constructor or a helper of it) whose callee reaches Metadata.ReadFooter
+	readFooter := u.Func(rtPath, "Metadata.ReadFooter")
+	rfMemo := map[*ssa.Function]bool{}
+	reachesFooter := func(f *ssa.Function) bool {
+		if v, ok := rfMemo[f]; ok {
+			return v
+		}
+		res := false
+		for g := range u.reach([]*ssa.Function{f}) {
+			if g == readFooter && readFooter != nil {
+				res = true
+			}
+		}
+		rfMemo[f] = res
+		return res
+	}
 	runEP(u, r, "EP/footer", ops, func(s *OpSite) bool {
 		if reach[s.Fn] {
 			return true
 		}
-		// the constructor's own call to ReadFooter
-		if s.Fn.Name() == "NewParquetReader" && strings.Contains(s.Callee, "ReadFooter") {
-			return true
+		if s.Kind == Derived {
+			for _, cal := range u.Callees(s.Site) {
+				if u.InUniverse(cal) && reachesFooter(cal) && !strings.HasSuffix(s.Callee, "readRowGroup") {
+					return true
+				}
+			}
 		}
 		return false
 	})
@@ -352,47 +371,64 @@ func checkC11(c *Ctx) {
 			continue
 		}
 		key := u.FnName(ctor)
-		var footerBlk *ssa.BasicBlock
-		var footerIdx int
+		// the constructor with the helper methods it calls on the reader it builds
+		var self ssa.Value
 		for _, b := range ctor.Blocks {
-			for i, ins := range b.Instrs {
-				if call, ok := ins.(ssa.CallInstruction); ok {
-					if sc := call.Common().StaticCallee(); sc != nil && sc.Name() == "ReadFooter" && u.pkgPathOf(sc) == rtPath {
-						footerBlk, footerIdx = b, i
-					}
+			if ret, ok := lastInstr(b).(*ssa.Return); ok && len(ret.Results) == 2 {
+				if al, ok := ret.Results[0].(*ssa.Alloc); ok {
+					self = al
 				}
 			}
 		}
-		if footerBlk == nil {
+		t := newTDUnit(u, ctor, self, nil)
+		inUnit := map[*ssa.Function]bool{}
+		for _, f := range t.fns {
+			inUnit[f] = true
+		}
+		footers := t.calls(func(c *ssa.Call) bool {
+			sc := c.Call.StaticCallee()
+			return sc != nil && sc.Name() == "ReadFooter" && u.pkgPathOf(sc) == rtPath
+		})
+		if len(footers) == 0 {
 			r.bad("FOOTER-FIRST", key, u.Pos(ctor.Pos()), "NewParquetReader does not call Metadata.ReadFooter")
 			continue
 		}
 		r.count("FOOTER-FIRST", 1)
 		okAll := true
-		for _, b := range ctor.Blocks {
-			for i, ins := range b.Instrs {
-				call, ok := ins.(ssa.CallInstruction)
-				if !ok {
-					continue
-				}
-				reachesCol := false
-				for _, cal := range u.Callees(call) {
-					if !u.InUniverse(cal) {
+		for _, f := range t.fns {
+			for _, b := range f.Blocks {
+				for _, ins := range b.Instrs {
+					call, ok := ins.(ssa.CallInstruction)
+					if !ok {
 						continue
 					}
-					for g := range u.reach([]*ssa.Function{cal}) {
-						if colReaders[g] {
-							reachesCol = true
+					if sc := call.Common().StaticCallee(); sc != nil && inUnit[sc] && sc != f {
+						continue // a helper of the constructor: its body is looked at itself
+					}
+					reachesCol := false
+					for _, cal := range u.Callees(call) {
+						if !u.InUniverse(cal) {
+							continue
+						}
+						for g := range u.reach([]*ssa.Function{cal}) {
+							if colReaders[g] {
+								reachesCol = true
+							}
 						}
 					}
-				}
-				if !reachesCol {
-					continue
-				}
-				dom := footerBlk.Dominates(b) && (footerBlk != b || footerIdx < i)
-				if !dom {
-					okAll = false
-					r.bad("FOOTER-FIRST", key+" -> "+calleeName(u, call.Common()), u.Pos(ins.Pos()), "a column read is reachable in the constructor without the footer having been read first")
+					if !reachesCol {
+						continue
+					}
+					dom := false
+					for _, rf := range footers {
+						if t.before(rf, ins) {
+							dom = true
+						}
+					}
+					if !dom {
+						okAll = false
+						r.bad("FOOTER-FIRST", key+" -> "+calleeName(u, call.Common()), u.Pos(ins.Pos()), "a column read is reachable in the constructor without the footer having been read first")
+					}
 				}
 			}
 		}
@@ -533,5 +569,240 @@ func footerGate(c *Ctx, roots *srcRoots) {
 		}
 	}
 	r.count("FOOTER-MAGIC", nMagic)
+	footerRejects(c, fns)
 	r.floor("FOOTER-MAGIC", 1, "getMetaDataSize")
+}
+
+// footerRejects (C16, C04, C01: a valid file is accepted): every error the footer path raises on its own (fmt.Errorf /
+// errors.New, as opposed to passing on an I/O or decode error) is raised under a condition that no valid file meets:
+// a failed read, a wrong magic, a non-positive footer length, or a footer length that provably does not fit between the
+// leading magic and the 8-byte tail (4 + size + 8 > file length), decided as a difference bound on size − position.
+func footerRejects(c *Ctx, fns []*ssa.Function) {
+	r, u := c.R, c.U
+	n := 0
+	for _, f := range fns {
+		ri := errIndex(f.Signature)
+		if ri < 0 {
+			continue
+		}
+		// the position the tail was found at: Seek(k, io.SeekEnd) -> file length + k
+		seekK := map[ssa.Value]int64{}
+		for _, b := range f.Blocks {
+			for _, ins := range b.Instrs {
+				if call, ok := ins.(*ssa.Call); ok && call.Call.IsInvoke() && call.Call.Method.Name() == "Seek" && len(call.Call.Args) == 2 && constIs(call.Call.Args[1], 2) {
+					if k, ok := call.Call.Args[0].(*ssa.Const); ok && k.Value != nil {
+						kv, _ := constant.Int64Val(k.Value)
+						if ex := extractOf(call, 0); ex != nil {
+							seekK[ex] = kv
+						}
+					}
+				}
+			}
+		}
+		// linear form: coefficient of the (single) seek position, coefficient of "size-like" atoms, constant
+		type lf struct {
+			pos   ssa.Value
+			pc    int64
+			atoms map[string]int64
+			k     int64
+			ok    bool
+		}
+		var lin func(v ssa.Value, d int) lf
+		lin = func(v ssa.Value, d int) lf {
+			v = stripConvert(v)
+			out := lf{atoms: map[string]int64{}, ok: true}
+			if d > 8 {
+				out.ok = false
+				return out
+			}
+			if _, isPos := seekK[v]; isPos {
+				out.pos, out.pc = v, 1
+				return out
+			}
+			switch x := v.(type) {
+			case *ssa.Const:
+				if x.Value != nil && x.Value.Kind() == constant.Int {
+					out.k, _ = constant.Int64Val(x.Value)
+					return out
+				}
+			case *ssa.BinOp:
+				if x.Op == token.ADD || x.Op == token.SUB {
+					a, b := lin(x.X, d+1), lin(x.Y, d+1)
+					if a.ok && b.ok && !(a.pos != nil && b.pos != nil && a.pos != b.pos) {
+						sg := int64(1)
+						if x.Op == token.SUB {
+							sg = -1
+						}
+						out.pos = a.pos
+						if out.pos == nil {
+							out.pos = b.pos
+						}
+						out.pc = a.pc + sg*b.pc
+						out.k = a.k + sg*b.k
+						for k2, c2 := range a.atoms {
+							out.atoms[k2] += c2
+						}
+						for k2, c2 := range b.atoms {
+							out.atoms[k2] += sg * c2
+						}
+						return out
+					}
+				}
+			case *ssa.Call:
+				if bi, ok := x.Call.Value.(*ssa.Builtin); ok && bi.Name() == "len" {
+					if at, ok := x.Call.Args[0].Type().Underlying().(*types.Array); ok {
+						out.k = at.Len()
+						return out
+					}
+					if sl, ok := x.Call.Args[0].(*ssa.Slice); ok {
+						if pt, ok := sl.X.Type().Underlying().(*types.Pointer); ok {
+							if at, ok := pt.Elem().Underlying().(*types.Array); ok && sl.Low == nil && sl.High == nil {
+								out.k = at.Len()
+								return out
+							}
+						}
+					}
+				}
+			}
+			// an opaque integer: an atom
+			out.atoms[symExpr(v, 0)] = 1
+			return out
+		}
+		for _, b := range f.Blocks {
+			ret, ok := lastInstr(b).(*ssa.Return)
+			if !ok {
+				continue
+			}
+			call, ok := ret.Results[ri].(*ssa.Call)
+			if !ok || !freshError(call) {
+				continue
+			}
+			n++
+			r.count("FOOTER-REJECT", 1)
+			key := fmt.Sprintf("%s rejection #%d", u.FnName(f), n)
+			pos := u.Pos(ret.Pos())
+			// the nearest deciding condition
+			var cond ssa.Value
+			truth := false
+			for d := b; d != nil && cond == nil; d = d.Idom() {
+				id := d.Idom()
+				if id == nil {
+					break
+				}
+				if iff, ok := lastInstr(id).(*ssa.If); ok && id.Succs[0] != id.Succs[1] {
+					for si, t := range []bool{true, false} {
+						sb := id.Succs[si]
+						if len(sb.Preds) == 1 && (sb == b || sb.Dominates(b)) {
+							cond, truth = iff.Cond, t
+						}
+					}
+				}
+			}
+			if cond == nil {
+				r.bad("FOOTER-REJECT", key, pos, "the footer path fails unconditionally")
+				continue
+			}
+			if _, isErr := isErrNilTest(cond); isErr {
+				r.ok("FOOTER-REJECT", key, pos, "raised after a failed read / seek / decode")
+				continue
+			}
+			if strings.Contains(symExpr(cond, 0), "\"PAR1\"") {
+				r.ok("FOOTER-REJECT", key, pos, "raised on a wrong magic")
+				continue
+			}
+			bo, ok := cond.(*ssa.BinOp)
+			if !ok {
+				r.bad("FOOTER-REJECT", key, pos, "files are refused under "+symExpr(cond, 0)+", which is not a condition the checker can show to exclude every valid file")
+				continue
+			}
+			// X - Y on the taken edge: lower bound lo (X - Y >= lo)
+			a, bb := lin(bo.X, 0), lin(bo.Y, 0)
+			op := bo.Op
+			if !truth {
+				op = map[token.Token]token.Token{token.LSS: token.GEQ, token.LEQ: token.GTR, token.GTR: token.LEQ, token.GEQ: token.LSS, token.EQL: token.NEQ, token.NEQ: token.EQL}[op]
+			}
+			// normalise to  E >= lo  or  E <= hi  with E = X - Y
+			if !a.ok || !bb.ok || (a.pos != nil && bb.pos != nil && a.pos != bb.pos) {
+				r.bad("FOOTER-REJECT", key, pos, "files are refused under "+symExpr(cond, 0)+", which is not a condition the checker can show to exclude every valid file")
+				continue
+			}
+			e := lf{atoms: map[string]int64{}, pos: a.pos, pc: a.pc - bb.pc, k: a.k - bb.k, ok: true}
+			if e.pos == nil {
+				e.pos = bb.pos
+			}
+			for k2, c2 := range a.atoms {
+				e.atoms[k2] += c2
+			}
+			for k2, c2 := range bb.atoms {
+				e.atoms[k2] -= c2
+			}
+			var sizeCoef int64
+			nAtoms := 0
+			for _, c2 := range e.atoms {
+				if c2 != 0 {
+					nAtoms++
+					sizeCoef = c2
+				}
+			}
+			// flip so that the size atom has coefficient +1
+			hasLo, lo := false, int64(0) // size*1 + pc*pos + k >= lo
+			hasHi, hi := false, int64(0)
+			switch op {
+			case token.GEQ:
+				hasLo, lo = true, 0
+			case token.GTR:
+				hasLo, lo = true, 1
+			case token.LEQ:
+				hasHi, hi = true, 0
+			case token.LSS:
+				hasHi, hi = true, -1
+			case token.EQL:
+				hasLo, hasHi = true, true
+			}
+			if nAtoms != 1 || (sizeCoef != 1 && sizeCoef != -1) {
+				r.bad("FOOTER-REJECT", key, pos, "files are refused under "+symExpr(cond, 0)+", which is not a condition the checker can show to exclude every valid file")
+				continue
+			}
+			if sizeCoef == -1 {
+				e.pc, e.k = -e.pc, -e.k
+				hasLo, hasHi, lo, hi = hasHi, hasLo, -hi, -lo
+			}
+			switch {
+			case e.pc == 0:
+				// size + k <= hi  with hi - k <= 0: refuses only non-positive lengths
+				if hasHi && !hasLo && hi-e.k <= 0 {
+					r.ok("FOOTER-REJECT", key, pos, "refuses only non-positive footer lengths")
+				} else {
+					r.bad("FOOTER-REJECT", key, pos, "files are refused when "+symExpr(cond, 0)+fmt.Sprintf(" is %v", truth)+": footer lengths of valid files are refused")
+				}
+			case e.pc == -1 && hasLo:
+				// size - pos + k >= lo, pos = L + seekK: valid files have size <= L - 12 = pos - seekK - 12, i.e. size - pos <= -seekK - 12
+				// the refusal must imply size - pos >= -seekK - 11
+				bound := lo - e.k
+				need := -seekK[e.pos] - 11
+				if bound >= need {
+					r.ok("FOOTER-REJECT", key, pos, "refuses only lengths that do not fit between the leading magic and the tail")
+				} else {
+					r.bad("FOOTER-REJECT", key, pos, fmt.Sprintf("files are refused when footer length − tail position ≥ %d, but a valid file can have up to %d (leading magic + footer + 8-byte tail = file length): e.g. a file without row groups, whose footer starts right behind the magic, is refused", bound, need-1))
+				}
+			default:
+				r.bad("FOOTER-REJECT", key, pos, "files are refused under "+symExpr(cond, 0)+", which is not a condition the checker can show to exclude every valid file")
+			}
+		}
+	}
+	r.floor("FOOTER-REJECT", 1, "the magic test of getMetaDataSize")
+}
+
+// footerPathFns: runtime functions reachable from the footer-reading roots.
+func footerPathFns(c *Ctx) []*ssa.Function {
+	roots := sourceRoots(c)
+	reach := c.U.reach(roots.footer)
+	var fns []*ssa.Function
+	for f := range reach {
+		if c.U.pkgPathOf(f) == rtPath {
+			fns = append(fns, f)
+		}
+	}
+	sort.Slice(fns, func(i, j int) bool { return fns[i].String() < fns[j].String() })
+	return fns
 }
